@@ -11,12 +11,43 @@ claim("C18", "other",
       "Decides on every statement path of the context manager: restore-on-exit, save-before-set, read-modify-write locality, mask bits vs MXCSR layout (symbolic per-path bit sets), reader/writer agreement, machine-code blob slots.",
       "trusted: MXCSR layout and instruction encodings from the Intel SDM; not decided: hardware behaviour, threads",
       "typestate / path enumeration + def-use + constant evaluation of masks and byte blobs", "DESIGN.md §3/C18")
+claim("C07", "other",
+      "Decides structural necessary conditions of sound hash-consing: registration key injective in kind, operands (in order), constant value encoding incl. sign of zero, value type and like key; Expr.__new__ exits only through registration; one table writer on the miss path, none on the hit path; Type hash/eq consistency.",
+      "trusted: Python tuple hash/eq semantics; not decided: cross-context or concurrent use",
+      "custom AST checker + path enumeration over Expr.__new__/_register_expression", "DESIGN.md §3/C07")
+claim("C09", "other",
+      "Decides absence of the constructs that make generated text depend on hash seed or process history: iteration/pick over set-typed values (package-wide set/dict-of-set inference) with an order-sensitive consumer; run-time mutated module/class/default-argument objects flowing (def-use taint) into expression/name constructors; id()/hash() orderings.",
+      "trusted: syntactic set-type inference (sources listed in evidence); not decided: equality of generated text across runs",
+      "dataflow/taint analysis over the AST (set-type inference, global-mutable-state to sink)", "DESIGN.md §3/C09")
+claim("C11", "other",
+      "Thin: constants of is_power_of_two / is_one_or_three_times_power_of_two / next() are constant-evaluated at every definition site (Python precedence included), compared with the documented formulas and IEEE precisions; kernel shape L=P*x, R=Q*x, D=L-R. ULP bounds of 3Sum/4Sum/dot2/FMA are not decided.",
+      "trusted: formulas from Graillat-Muller; only the named constants are decided",
+      "constant evaluation of table/constant expressions over the AST", "DESIGN.md §3/C11")
+claim("C13", "other",
+      "Thin: every literal format table keyed by numpy.float16/32/64 in utils.py and the mpmath backend's precision/exponent tables are checked against IEEE-754 binary16/32/64 and each other. Round-trip equalities are not decided.",
+      "trusted: IEEE-754 parameters; only the tables are decided",
+      "constant evaluation of literal tables over the AST", "DESIGN.md §3/C13")
+claim("C15", "other",
+      "Partial: sentinel (UNSPECIFIED) resolution yields the caller's value or the default and never the sentinel; no possibly-unspecified option reaches a truth test or attribute; extra-precision options are applied by backend_context and all backend evaluations run inside it; mpf2float's tables and flush-keyed threshold. Rounding of values is not decided.",
+      "trusted: IEEE-754 parameters; not decided: numeric rounding behaviour of mpf2float",
+      "custom AST checker: conditional-expression shapes, dominance of resolution over truth tests, with-block containment", "DESIGN.md §3/C15")
+claim("C16", "other",
+      "Partial: on every returning statement path of each polynomial evaluator the coefficient indices read, iterated or delegated (intervals affine in the length) partition [0, len) exactly; exponent bookkeeping of fast_exponent_by_squaring and of the split recombination; agreement of the duplicated implementations.",
+      "trusted: induction hypothesis for recursive/sibling calls on slices; not decided: the rest of the arithmetic, multiply/add/divmod/taylorat algebra",
+      "path enumeration + symbolic (affine) index-interval coverage", "DESIGN.md §3/C16")
+claim("C17", "other",
+      "Thin: the active double-word ln2 constants (branch chosen by constant-evaluating the if-chain) satisfy hi+lo ~ ln2 to half an ulp of lo and leave enough trailing zeros for exact k*hi, in exact rational arithmetic per format; scalar constants correctly rounded; reduction formula matched. Reconstruction bounds on inputs are not decided.",
+      "trusted: ln2 to 100 digits; struct rounding of literals",
+      "constant evaluation + exact rational arithmetic on literals", "DESIGN.md §3/C17")
+claim("C19", "other",
+      "Partial: interval analysis of the sample count at every `// (num-1)` divisor and negative index of real_samples from dominating facts; product generators forward every shared option and axis k's size/bounds to the k-th inner call. Properties of returned arrays are not decided.",
+      "trusted: dominance in structured code; 4 known findings (unguarded divisors/index) are listed in known_findings.json",
+      "interval analysis over dominating conditions + call-site argument forwarding check", "DESIGN.md §3/C19")
 for p, why in dict(
     C01="bounds ULP error of libm-based formulas over all complex inputs: a numeric quantity no static argument in reach can bound",
     C02="same on the real line; float32 exhaustion is execution, not static analysis",
-    C03="(not built yet)", C04="(not built yet)", C07="(not built yet)", C08="(not built yet)", C09="(not built yet)",
-    C10="(not built yet)", C11="(not built yet)", C12="(not built yet)", C13="(not built yet)",
+    C03="(not built yet)", C04="(not built yet)", C08="(not built yet)",
+    C10="(not built yet)", C12="(not built yet)",
     C14="metric laws of integer arithmetic on runtime bit patterns; nothing structural beyond a width table",
-    C15="(not built yet)", C16="(not built yet)", C17="(not built yet)", C19="(not built yet)",
 ).items():
     na(p, why)
